@@ -1,0 +1,422 @@
+//go:build verif
+
+package scheduler
+
+import (
+	"fmt"
+	"sort"
+	"time"
+
+	"github.com/buildbarn/bb-storage/pkg/digest"
+
+	"google.golang.org/grpc/codes"
+	"google.golang.org/grpc/status"
+)
+
+// This file only exists in builds with the "verif" tag. It exports a
+// read-only, canonical dump of the scheduler's state (taken under the
+// queue lock) and a structural walk of its index fields, so that the
+// state can be compared against a formal model after every call.
+
+// VerifInvocation describes one node of an invocation tree.
+type VerifInvocation struct {
+	Path             []string // invocation keys from the root
+	QueuedOperations []string // operation names, in heap array order
+	QueuedChildren   []string // last invocation key of each child, in heap array order
+	IdleSyncChildren []string // same, for idleSynchronizingWorkersChildren
+	Children         []string // keys of all children, sorted
+	FirstPriority    int32
+	ExecutingWorkers []string // "workerKey=count", sorted
+	LastStarted      int64
+	LastCompletion   int64
+	IdleWorkersCount uint32
+	IdleSyncWorkers  []string // worker keys, in list order
+}
+
+// VerifWorker describes one worker.
+type VerifWorker struct {
+	Key             string
+	TaskOperations  []string // names of the operations of the current task, sorted; nil if none
+	HasTask         bool
+	Cleanup         int64 // 0 if not armed
+	Terminating     bool
+	HasLastInv      bool
+	LastInvocation  []string
+	Waiting         bool
+	StickinessTimes []int64
+}
+
+// VerifSizeClassQueue describes one size class queue.
+type VerifSizeClassQueue struct {
+	SizeClass    uint32
+	MayBeRemoved bool
+	Cleanup      int64
+	Drains       []string
+	Workers      []VerifWorker
+	Invocations  []VerifInvocation // pre-order, children sorted by key
+}
+
+// VerifPlatformQueue describes one platform queue.
+type VerifPlatformQueue struct {
+	InstanceNamePrefix                        string
+	Platform                                  string
+	SizeClasses                               []uint32
+	StickinessLimits                          []int64
+	MaximumQueuedBackgroundLearningOperations int
+	BackgroundLearningOperationPriority       int32
+	SizeClassQueues                           []VerifSizeClassQueue
+}
+
+// VerifOperation describes one operation and the task it belongs to.
+type VerifOperation struct {
+	Name                   string
+	TaskOperations         []string // names of all operations of the task, sorted
+	Priority               int32
+	InstanceNamePrefix     string
+	Platform               string
+	SizeClass              uint32
+	InvocationPath         []string
+	Queued                 bool
+	Waiters                uint
+	MayExistWithoutWaiters bool
+	Cleanup                int64
+
+	ActionDigestHash    string
+	HasAction           bool
+	DoNotCache          bool
+	TimeoutNanos        int64
+	QueuedTimestamp     int64
+	InstanceNameSuffix  string
+	CurrentWorker       string
+	RetryCount          int
+	ExpectedDuration    int64
+	HasLearner          bool
+	TaskMayExistWithout bool
+	Stage               int32
+	HasResponse         bool
+	ResponseCode        int32
+	ResponseMessage     string
+	ResponseExitCode    int32
+	ResponseHasResult   bool
+}
+
+// VerifState is the canonical dump of an InMemoryBuildQueue.
+type VerifState struct {
+	Now            int64
+	PlatformQueues []VerifPlatformQueue
+	Operations     []VerifOperation
+	InFlight       []string // "digestKey=firstOperationName" of every in-flight deduplication entry, sorted
+	CleanupEntries int
+	Errors         []string // structural inconsistencies found while walking
+}
+
+func verifTime(t time.Time) int64 {
+	if t.IsZero() {
+		return 0
+	}
+	return t.UnixNano()
+}
+
+func (bq *InMemoryBuildQueue) verifCleanup(k cleanupKey) int64 {
+	if k == 0 {
+		return 0
+	}
+	return bq.cleanupQueue.heap[k-1].timestamp.UnixNano()
+}
+
+func verifTaskOperationNames(t *task) []string {
+	names := make([]string, 0, len(t.operations))
+	for _, o := range t.operations {
+		names = append(names, o.name)
+	}
+	sort.Strings(names)
+	return names
+}
+
+func (bq *InMemoryBuildQueue) verifWalkInvocation(i *invocation, scq *sizeClassQueue, out *[]VerifInvocation, errs *[]string) {
+	vi := VerifInvocation{
+		FirstPriority:    i.firstQueuedOperationPriority,
+		LastStarted:      verifTime(i.lastOperationStarted),
+		LastCompletion:   verifTime(i.lastOperationCompletion),
+		IdleWorkersCount: i.idleWorkersCount,
+	}
+	for _, k := range i.invocationKeys {
+		vi.Path = append(vi.Path, string(k))
+	}
+	where := fmt.Sprintf("invocation %v", vi.Path)
+	if i.sizeClassQueue != scq {
+		*errs = append(*errs, where+": wrong sizeClassQueue pointer")
+	}
+	for idx, o := range i.queuedOperations {
+		vi.QueuedOperations = append(vi.QueuedOperations, o.name)
+		if o.queueIndex != idx {
+			*errs = append(*errs, fmt.Sprintf("%s: operation %s has queueIndex %d at heap position %d", where, o.name, o.queueIndex, idx))
+		}
+		if o.invocation != i {
+			*errs = append(*errs, fmt.Sprintf("%s: queued operation %s belongs to another invocation", where, o.name))
+		}
+		if bq.operationsNameMap[o.name] != o {
+			*errs = append(*errs, fmt.Sprintf("%s: queued operation %s is not in the name map", where, o.name))
+		}
+	}
+	for idx, c := range i.queuedChildren {
+		vi.QueuedChildren = append(vi.QueuedChildren, string(c.invocationKeys[len(c.invocationKeys)-1]))
+		if c.queuedChildrenIndex != idx {
+			*errs = append(*errs, fmt.Sprintf("%s: child has queuedChildrenIndex %d at heap position %d", where, c.queuedChildrenIndex, idx))
+		}
+		if c.parent != i {
+			*errs = append(*errs, where+": queued child with another parent")
+		}
+	}
+	for idx, c := range i.idleSynchronizingWorkersChildren {
+		vi.IdleSyncChildren = append(vi.IdleSyncChildren, string(c.invocationKeys[len(c.invocationKeys)-1]))
+		if c.idleSynchronizingWorkersChildrenIndex != idx {
+			*errs = append(*errs, fmt.Sprintf("%s: child has idleSynchronizingWorkersChildrenIndex %d at heap position %d", where, c.idleSynchronizingWorkersChildrenIndex, idx))
+		}
+		if c.parent != i {
+			*errs = append(*errs, where+": idle synchronizing child with another parent")
+		}
+	}
+	for w, n := range i.executingWorkers {
+		vi.ExecutingWorkers = append(vi.ExecutingWorkers, fmt.Sprintf("%s=%d", w.workerKey, n))
+	}
+	sort.Strings(vi.ExecutingWorkers)
+	for idx, e := range i.idleSynchronizingWorkers {
+		vi.IdleSyncWorkers = append(vi.IdleSyncWorkers, string(e.worker.workerKey))
+		if e.worker.listIndex != idx {
+			*errs = append(*errs, fmt.Sprintf("%s: worker %s has listIndex %d at list position %d", where, e.worker.workerKey, e.worker.listIndex, idx))
+		}
+		if e.worker.lastInvocation != i {
+			*errs = append(*errs, fmt.Sprintf("%s: idle synchronizing worker %s has another last invocation", where, e.worker.workerKey))
+		}
+	}
+	keys := make([]string, 0, len(i.children))
+	for k, c := range i.children {
+		keys = append(keys, string(k))
+		if c.parent != i {
+			*errs = append(*errs, where+": child with another parent")
+		}
+		inQueued := c.queuedChildrenIndex >= 0
+		if inQueued != c.isQueued() {
+			*errs = append(*errs, fmt.Sprintf("%s: child %s queuedChildrenIndex=%d but isQueued=%v", where, k, c.queuedChildrenIndex, c.isQueued()))
+		}
+		if inQueued && (c.queuedChildrenIndex >= len(i.queuedChildren) || i.queuedChildren[c.queuedChildrenIndex] != c) {
+			*errs = append(*errs, fmt.Sprintf("%s: child %s has a dangling queuedChildrenIndex", where, k))
+		}
+		inIdle := c.idleSynchronizingWorkersChildrenIndex >= 0
+		if inIdle != (len(c.idleSynchronizingWorkers) > 0 || len(c.idleSynchronizingWorkersChildren) > 0) {
+			*errs = append(*errs, fmt.Sprintf("%s: child %s idleSynchronizingWorkersChildrenIndex=%d inconsistent", where, k, c.idleSynchronizingWorkersChildrenIndex))
+		}
+		if inIdle && (c.idleSynchronizingWorkersChildrenIndex >= len(i.idleSynchronizingWorkersChildren) || i.idleSynchronizingWorkersChildren[c.idleSynchronizingWorkersChildrenIndex] != c) {
+			*errs = append(*errs, fmt.Sprintf("%s: child %s has a dangling idleSynchronizingWorkersChildrenIndex", where, k))
+		}
+	}
+	sort.Strings(keys)
+	vi.Children = keys
+	*out = append(*out, vi)
+	for _, k := range keys {
+		for ck, c := range i.children {
+			if string(ck) == k {
+				bq.verifWalkInvocation(c, scq, out, errs)
+			}
+		}
+	}
+}
+
+// VerifDump returns a canonical description of the scheduler state.
+func (bq *InMemoryBuildQueue) VerifDump() *VerifState {
+	bq.lock.Lock()
+	defer bq.lock.Unlock()
+
+	s := &VerifState{
+		Now:            verifTime(bq.now),
+		CleanupEntries: len(bq.cleanupQueue.heap),
+	}
+	errs := &s.Errors
+
+	for idx, e := range bq.cleanupQueue.heap {
+		if *e.key != cleanupKey(idx+1) {
+			*errs = append(*errs, fmt.Sprintf("cleanup heap entry %d has key %d", idx, *e.key))
+		}
+	}
+
+	pqs := append(platformQueueList(nil), bq.platformQueues...)
+	sort.Sort(pqs)
+	scqCount := 0
+	for _, pq := range pqs {
+		vpq := VerifPlatformQueue{
+			InstanceNamePrefix: pq.platformKey.GetInstanceNamePrefix().String(),
+			Platform:           pq.platformKey.GetPlatformString(),
+			SizeClasses:        append([]uint32(nil), pq.sizeClasses...),
+			MaximumQueuedBackgroundLearningOperations: pq.maximumQueuedBackgroundLearningOperations,
+			BackgroundLearningOperationPriority:       pq.backgroundLearningOperationPriority,
+		}
+		if idx := bq.platformQueuesTrie.GetExact(pq.platformKey); idx < 0 || bq.platformQueues[idx] != pq {
+			*errs = append(*errs, fmt.Sprintf("platform queue %s %s: trie index %d does not point back", vpq.InstanceNamePrefix, vpq.Platform, idx))
+		}
+		for _, l := range pq.workerInvocationStickinessLimits {
+			vpq.StickinessLimits = append(vpq.StickinessLimits, int64(l))
+		}
+		if len(pq.sizeClasses) != len(pq.sizeClassQueues) {
+			*errs = append(*errs, "platform queue: sizeClasses and sizeClassQueues differ in length")
+		}
+		for idx, scq := range pq.sizeClassQueues {
+			scqCount++
+			vscq := VerifSizeClassQueue{
+				SizeClass:    scq.sizeClass,
+				MayBeRemoved: scq.mayBeRemoved,
+				Cleanup:      bq.verifCleanup(scq.cleanupKey),
+			}
+			if idx < len(pq.sizeClasses) && pq.sizeClasses[idx] != scq.sizeClass {
+				*errs = append(*errs, "platform queue: sizeClasses out of sync with sizeClassQueues")
+			}
+			if scq.platformQueue != pq || bq.sizeClassQueues[scq.getKey()] != scq {
+				*errs = append(*errs, "size class queue not registered under its key")
+			}
+			for k := range scq.drains {
+				vscq.Drains = append(vscq.Drains, k)
+			}
+			sort.Strings(vscq.Drains)
+			wkeys := make([]string, 0, len(scq.workers))
+			for k := range scq.workers {
+				wkeys = append(wkeys, string(k))
+			}
+			sort.Strings(wkeys)
+			for _, k := range wkeys {
+				w := scq.workers[workerKey(k)]
+				vw := VerifWorker{
+					Key:         k,
+					Cleanup:     bq.verifCleanup(w.cleanupKey),
+					Terminating: w.terminating,
+					Waiting:     w.wakeup != nil,
+				}
+				if w.workerKey != workerKey(k) {
+					*errs = append(*errs, "worker registered under a different key")
+				}
+				if t := w.currentTask; t != nil {
+					vw.HasTask = true
+					vw.TaskOperations = verifTaskOperationNames(t)
+					if t.currentWorker != w {
+						*errs = append(*errs, fmt.Sprintf("worker %s: current task does not point back to it", k))
+					}
+					if t.executeResponse != nil {
+						*errs = append(*errs, fmt.Sprintf("worker %s: current task is already completed", k))
+					}
+				}
+				if (w.wakeup != nil) != (w.listIndex >= 0) {
+					*errs = append(*errs, fmt.Sprintf("worker %s: wakeup and listIndex disagree", k))
+				}
+				if i := w.lastInvocation; i != nil {
+					vw.HasLastInv = true
+					for _, ik := range i.invocationKeys {
+						vw.LastInvocation = append(vw.LastInvocation, string(ik))
+					}
+					if i.sizeClassQueue != scq {
+						*errs = append(*errs, fmt.Sprintf("worker %s: last invocation in another size class queue", k))
+					}
+				}
+				if (w.lastInvocation == nil) != (w.currentTask != nil) {
+					*errs = append(*errs, fmt.Sprintf("worker %s: lastInvocation nil=%v but currentTask nil=%v", k, w.lastInvocation == nil, w.currentTask == nil))
+				}
+				for _, t := range w.stickinessStartingTimes {
+					vw.StickinessTimes = append(vw.StickinessTimes, verifTime(t))
+				}
+				vscq.Workers = append(vscq.Workers, vw)
+			}
+			bq.verifWalkInvocation(&scq.rootInvocation, scq, &vscq.Invocations, errs)
+			vpq.SizeClassQueues = append(vpq.SizeClassQueues, vscq)
+		}
+		s.PlatformQueues = append(s.PlatformQueues, vpq)
+	}
+	if scqCount != len(bq.sizeClassQueues) {
+		*errs = append(*errs, fmt.Sprintf("%d size class queues reachable from platform queues, %d in the map", scqCount, len(bq.sizeClassQueues)))
+	}
+
+	names := make([]string, 0, len(bq.operationsNameMap))
+	for name := range bq.operationsNameMap {
+		names = append(names, name)
+	}
+	sort.Strings(names)
+	for _, name := range names {
+		o := bq.operationsNameMap[name]
+		t := o.task
+		i := o.invocation
+		scq := i.sizeClassQueue
+		vo := VerifOperation{
+			Name:                   name,
+			TaskOperations:         verifTaskOperationNames(t),
+			Priority:               o.priority,
+			InstanceNamePrefix:     scq.platformQueue.platformKey.GetInstanceNamePrefix().String(),
+			Platform:               scq.platformQueue.platformKey.GetPlatformString(),
+			SizeClass:              scq.sizeClass,
+			Queued:                 o.queueIndex >= 0,
+			Waiters:                o.waiters,
+			MayExistWithoutWaiters: o.mayExistWithoutWaiters,
+			Cleanup:                bq.verifCleanup(o.cleanupKey),
+			ActionDigestHash:       t.actionDigest.GetKey(digest.KeyWithInstance),
+			QueuedTimestamp:        t.desiredState.QueuedTimestamp.AsTime().UnixNano(),
+			InstanceNameSuffix:     t.desiredState.InstanceNameSuffix,
+			RetryCount:             t.retryCount,
+			ExpectedDuration:       int64(t.expectedDuration),
+			HasLearner:             t.initialSizeClassLearner != nil,
+			TaskMayExistWithout:    t.mayExistWithoutWaiters,
+			Stage:                  int32(t.getStage()),
+		}
+		for _, ik := range i.invocationKeys {
+			vo.InvocationPath = append(vo.InvocationPath, string(ik))
+		}
+		if t.operations[i] != o {
+			*errs = append(*errs, fmt.Sprintf("operation %s: task does not list it under its invocation", name))
+		}
+		if o.name != name {
+			*errs = append(*errs, fmt.Sprintf("operation %s registered under another name", o.name))
+		}
+		if a := t.desiredState.Action; a != nil {
+			vo.HasAction = true
+			vo.DoNotCache = a.DoNotCache
+			vo.TimeoutNanos = int64(a.Timeout.AsDuration())
+		}
+		if w := t.currentWorker; w != nil {
+			vo.CurrentWorker = string(w.workerKey)
+			if w.currentTask != t {
+				*errs = append(*errs, fmt.Sprintf("operation %s: worker of its task runs another task", name))
+			}
+			if i.executingWorkers[w] <= 0 {
+				*errs = append(*errs, fmt.Sprintf("operation %s: executing, but its invocation does not count the worker", name))
+			}
+		}
+		if r := t.executeResponse; r != nil {
+			vo.HasResponse = true
+			st := status.FromProto(r.Status)
+			vo.ResponseCode = int32(st.Code())
+			vo.ResponseMessage = r.Message
+			if r.Result != nil {
+				vo.ResponseHasResult = true
+				vo.ResponseExitCode = r.Result.ExitCode
+			}
+			if vo.Queued {
+				*errs = append(*errs, fmt.Sprintf("operation %s: completed but still queued", name))
+			}
+			_ = codes.OK
+		} else if (t.currentWorker == nil) != vo.Queued {
+			*errs = append(*errs, fmt.Sprintf("operation %s: queued=%v but task has worker=%v", name, vo.Queued, t.currentWorker != nil))
+		}
+		if vo.Queued && (o.queueIndex >= len(i.queuedOperations) || i.queuedOperations[o.queueIndex] != o) {
+			*errs = append(*errs, fmt.Sprintf("operation %s: dangling queueIndex", name))
+		}
+		s.Operations = append(s.Operations, vo)
+	}
+
+	for d, t := range bq.inFlightDeduplicationMap {
+		first := ""
+		if ns := verifTaskOperationNames(t); len(ns) > 0 {
+			first = ns[0]
+		}
+		s.InFlight = append(s.InFlight, d.GetKey(digest.KeyWithInstance)+"="+first)
+		if t.executeResponse != nil {
+			*errs = append(*errs, "in-flight deduplication map holds a completed task")
+		}
+	}
+	sort.Strings(s.InFlight)
+	return s
+}
